@@ -14,9 +14,10 @@ for pid in ALL:
                            level_claimed=dict(category='proof', text=P['level_text'], design_ref=P['design_ref']),
                            level_note=P['level_note'], technique=P.get('technique', 'contract-based deductive verification (Verus) of functions re-extracted from /repo on every run')))
 na = [dict(property_id=pid, reason=props.NOT_APPLICABLE.get(pid, 'designed (DESIGN.md section 4) but not built')) for pid in ALL if pid not in props.PROPS]
+HK = json.load(open(os.path.join(os.path.dirname(HERE), 'hooks.json')))
 m = dict(version=1, setup_cmd='true',
-         hooks=dict(guard='none: no source hooks are needed; the functions under contract are re-extracted from /repo on every run',
-                    enable='n/a', baseline_off_cmd='cd /repo && cargo test --workspace --no-fail-fast --offline', source_commits=[], add_only=True),
+         hooks=dict(guard=HK['guard'], enable=HK['enable'], baseline_off_cmd='cd /repo && cargo test --workspace --no-fail-fast --offline',
+                    source_commits=HK['source_commits'], add_only=True),
          engines=[dict(name='vx', path='vx/', serves_properties=sorted(props.PROPS), kind_free_text='mechanical extractor/normaliser + contract splicer + Verus runner + classifier (python3 stdlib), cargo-test replay lane for counterexample search, bounded harness lane (labelled bounded, never counted as proof) for code outside the subset of the verifier')],
          checks=checks, not_applicable=na,
          notes='Contract-based deductive verification of the real code; see DESIGN.md. exit 2 = UNDECIDED (lost anchor / unsupported construct / solver limit), never an alarm.')
